@@ -1,4 +1,5 @@
 import Rcgen.Proofs.Pem
+import Rcgen.Proofs.PemParse
 /-
   C14 — PEM output is a faithful RFC 7468 envelope of the DER.
   Model: `pemEncode` (Model/Pem.lean) = pem 3.0.5 `encode_config` as rcgen configures it.
@@ -83,5 +84,23 @@ theorem pem_empty (k : PemKind) :
 /-! non-vacuity -/
 example : pemDecode (pemEncode PemKind.crl.label [1, 2, 3, 4]) = some (PemKind.crl.label, [1, 2, 3, 4]) :=
   pem_strict_roundtrip _ _
+
+/-- **rcgen's own PEM loaders accept that text and recover the same bytes**: the reader behind
+    `KeyPair::from_pem`, `from_ca_cert_pem`, `CertificateSigningRequestParams::from_pem` and
+    `SubjectPublicKeyInfo::from_pem` (pem 3.0.5 `parse`, Model/PemParse.lean) applied to the text
+    rcgen writes for any of the five kinds returns that kind's label and exactly the bytes that
+    were wrapped — for byte strings of every length, the empty one included -/
+theorem own_loader_reads_own_text (k : PemKind) (der : Bytes) :
+    pemParse (pemEncode k.label der) = .ok (k.label, der) :=
+  Proofs.PemParse.pemParse_pemEncode k.label der (by cases k <;> decide) (by cases k <;> decide)
+
+/-- … and so for any label that is not empty and holds no `-` -/
+theorem lenient_reader_inverts_encoder (label der : Bytes) (hne : label ≠ [])
+    (hl : ∀ x ∈ label, x ≠ 45) : pemParse (pemEncode label der) = .ok (label, der) :=
+  Proofs.PemParse.pemParse_pemEncode label der hne hl
+
+example : (match pemParse (pemEncode PemKind.crl.label [1, 2, 3, 4]) with
+    | .ok (l, d) => l == PemKind.crl.label && d == [1, 2, 3, 4]
+    | .error _ => false) = true := by decide +kernel
 
 end Rcgen.Theorems.C14
